@@ -4,6 +4,7 @@
 use crate::envx::*;
 use crate::report::Outcome;
 use crate::scriptrng::Ans;
+use crate::snap::Snap;
 use serde_json::json;
 
 fn fact(n: usize) -> usize {
@@ -156,8 +157,15 @@ pub fn c08(tier: &str) -> i32 {
     let mut c = ecfg("MarketEnv<4,3>: four assets", true, &[1, 2, 3, 5], 100, 3, 2, 0, &cl);
     c.alpha.modify = false;
     absorb_env(&mut out, &c, 4, 3, run_env::<4, 3>(&c), "market-env", true);
+    let sizes: &[usize] = if t { &[6, 12, 20, 33, 34, 48, 64, 100, 257, 1025, 4097] } else { &[6, 20, 33, 40, 64, 257, 1030] };
+    large_batches::<1, 3>(&mut out, false, sizes, "env");
+    large_batches::<2, 3>(&mut out, true, sizes, "market-env");
     // large numbers
-    let c = magnitude_cfg("Env<3>: volumes of 1e9..3e9, clock beyond 2^40, step size 2^33", false, &[1], s, 3, &cl);
+    let mut c = magnitude_cfg("Env<3>: volumes of 1e9..3e9, clock beyond 2^40, step size 2^33", false, &[1], s, 3, &cl);
+    if !t {
+        c.alpha.market_vols = vec![];
+        c.alpha.cancel = false;
+    }
     absorb_env(&mut out, &c, 1, 3, run_env::<1, 3>(&c), "env", true);
     let c = magnitude_cfg("MarketEnv<2,3>: volumes of 1e9..3e9", true, &[1, 2], s - 1, 2, &cl);
     absorb_env(&mut out, &c, 2, 3, run_env::<2, 3>(&c), "market-env", true);
@@ -310,6 +318,10 @@ pub fn c14(tier: &str) -> i32 {
     let mut c = ecfg("MarketEnv<4,3>: four assets", true, &[1, 2, 3, 5], 100, 3, 2, 0, &cl);
     c.alpha.modify = false;
     absorb_env(&mut out, &c, 4, 3, run_env::<4, 3>(&c), "market-env", true);
+    let sizes: &[usize] = if t { &[12, 33, 34, 48, 70, 100, 257, 1025] } else { &[12, 34, 40, 80, 257] };
+    large_batches::<2, 3>(&mut out, true, sizes, "market-env");
+    large_batches::<3, 2>(&mut out, true, sizes, "market-env");
+    large_batches::<4, 3>(&mut out, true, sizes, "market-env");
     out.assumptions = vec!["shadow = stand-alone real OrderBooks fed only their asset's operations at the same times".into()];
     out.finish()
 }
@@ -367,4 +379,96 @@ pub fn c13_env_part(out: &mut Outcome, t: bool) {
     absorb_env(out, &c, 1, 3, run_env::<1, 3>(&c), "env", false);
     let c = ecfg("MarketEnv<2,3>: toggles", true, &[1, 2], 100, s, 2, 1, &cl);
     absorb_env(out, &c, 2, 3, run_env::<2, 3>(&c), "market-env", false);
+}
+
+
+/// Batches far larger than the candidate-schedule oracle can permute: every instruction is a new
+/// limit order joining ONE price level of its asset, so the schedule can be read off the arrival
+/// stamps; the batch is then replayed on stand-alone books in that order at those stamps and the
+/// books must agree - including the queue order, revealed by a second step of partial sweeps and
+/// by draining both. Scripts: several default streams, all-zero and all-ones answers.
+pub fn large_batches<const A: usize, const L: usize>(out: &mut Outcome, multi: bool, sizes: &[usize], sig_prefix: &str) {
+    use crate::scriptrng::ScriptRng;
+    use bourse_book::OrderBook;
+    let ticks: Vec<u32> = (0..A).map(|a| [1u32, 2, 3, 5][a % 4]).collect();
+    let mut execs = 0u64;
+    let mut steps = 0u64;
+    for &n in sizes {
+        let mut scripts: Vec<(Vec<Ans>, u64)> = (0..6u64).map(|s| (vec![], 100 + s)).collect();
+        scripts.push((vec![Ans::Raw(0); 2 * n], 1));
+        scripts.push((vec![Ans::Raw(u64::MAX - 1); 2 * n], 1));
+        for (script, seed) in &scripts {
+            execs += 1;
+            let replay = json!({"engine": "large_batches", "multi_asset": multi, "assets": A, "levels": L, "batch": n, "script": format!("{:?}", &script[..script.len().min(4)]), "fallback_seed": seed});
+            let r = crate::util::subject(|| -> Result<(), String> {
+                let start = 1_000u64;
+                let step_size = 1_000_000u64;
+                let mut env = AnyEnv::<A, L>::make(multi, start, &ticks, step_size, true);
+                let mut plain: Vec<OrderBook<L>> = ticks.iter().map(|t| OrderBook::<L>::new(start, *t, true)).collect();
+                let mut rng = ScriptRng::new(script.clone(), *seed);
+                rng.budget = 10_000_000;
+                let mut now = start;
+                for round in 0..2 {
+                    // round 0: n bids on one level per asset; round 1: one partial market sell per asset + more bids
+                    let mut ids: Vec<(usize, usize)> = Vec::new();
+                    let m = if round == 0 { n } else { A + n / 2 };
+                    for i in 0..m {
+                        let a = i % A;
+                        let (bid, vol, price) = if round == 1 && i < A { (false, 4u32, None) } else { (true, 1 + (i % 3) as u32, Some(2 * ticks[a])) };
+                        let id = env.place(a, bid, vol, 100 + i as u32, price).map_err(|_| "place refused")?;
+                        let pid = plain[a].create_order(crate::snap::side_of(bid), vol, 100 + i as u32, price).map_err(|_| "plain create refused")?;
+                        if pid != id.1 {
+                            return Err(format!("ids differ: env {:?} plain {}", id, pid));
+                        }
+                        ids.push(id);
+                    }
+                    env.step(&mut rng);
+                    // schedule from the arrival stamps
+                    let mut sched: Vec<(u64, usize)> = Vec::new();
+                    for (i, (a, id)) in ids.iter().enumerate() {
+                        let t = env.book(*a).order(*id).arr_time;
+                        if t < now || t >= now + m as u64 {
+                            return Err(format!("round {}: instruction {} stamped {} outside [{}, {})", round, i, t, now, now + m as u64));
+                        }
+                        sched.push((t, i));
+                    }
+                    sched.sort();
+                    if sched.windows(2).any(|w| w[0].0 == w[1].0) {
+                        return Err(format!("round {}: two instructions share one time stamp", round));
+                    }
+                    for b in plain.iter_mut() {
+                        b.reset_trade_vol();
+                    }
+                    for (t, i) in &sched {
+                        for b in plain.iter_mut() {
+                            b.set_time(*t);
+                        }
+                        let (a, id) = ids[*i];
+                        plain[a].place_order(id);
+                    }
+                    now += step_size;
+                    for b in plain.iter_mut() {
+                        b.set_time(now);
+                    }
+                    for a in 0..A {
+                        let (se, sp) = (Snap::take(env.book(a)), Snap::take(&plain[a]));
+                        if se != sp {
+                            return Err(format!("round {} asset {}: environment differs from the stand-alone replay in stamp order: {}", round, a, sp.describe_diff(&se)));
+                        }
+                    }
+                }
+                Ok(())
+            });
+            steps += 2;
+            match r {
+                Ok(Ok(())) => {}
+                Ok(Err(e)) => out.fail_other(&format!("{}/large-batch/differs-from-standalone-replay", sig_prefix), e, replay),
+                Err(m) => out.fail_other(&format!("{}/large-batch/panic/{}", sig_prefix, crate::util::panic_sig(&m)), m, replay),
+            }
+        }
+    }
+    out.add_u64("states", execs);
+    out.add_u64("transitions", steps);
+    out.add_u64("traces_validated_against_impl", execs);
+    out.push("runs", json!({"label": format!("large batches, schedule read from arrival stamps ({} assets)", A), "batch_sizes": sizes, "scripts_per_size": 8, "executions": execs}));
 }
